@@ -173,6 +173,7 @@ impl Prop for C15 {
 
     fn gen(&self, rng: &mut Rng, n: usize, tier: Tier, out: &mut Vec<String>) {
         let l = srv_conn::lens();
+        srv_conn::gen_systematic(&l, out);
         if tier == Tier::Thorough {
             // every sequence of up to 4 frames over {HEL, OPN issue, OPN renew, MSG, CLO, MSG 'C', OPN 'C', MSG 'A'}
             let alpha = ["hel", "oi", "or", "msg", "clo", "msgC", "opnC", "msgA"];
